@@ -349,6 +349,34 @@ def lookup(node, path, arr_query=False):
     return node
 
 
+def index_merge_reasons(node, path):
+    """Reasons for which the library may refuse a lookup along `path` although the model is
+    well defined: below an index level the library merges the (masked) skeletons of the maps
+    stored under *all* indices of that level, so kinds / shapes that differ between indices
+    clash, and the rest of the path is looked up in that merged skeleton as well."""
+    reasons = set()
+
+    def walk(nd, rest, depth=0):
+        for i, c in enumerate(rest):
+            if nd is EMPTY:
+                return
+            if isinstance(nd, Unspec):
+                reasons.add(nd.reason)
+                return
+            if isinstance(nd, Index) and depth < 4:
+                acc = invalidate(nd.shadow)
+                for k in sorted(nd.kids):
+                    acc = union(acc, invalidate(nd.kids[k]))
+                unspec_reasons(acc, reasons)
+                walk(skeleton_only(acc), rest[i + 1:], depth + 1)
+            nd = lookup1(nd, c)
+        if isinstance(nd, Unspec):
+            reasons.add(nd.reason)
+
+    walk(node, tuple(path))
+    return reasons
+
+
 def union(a, b):
     """Left-biased union."""
     if b is EMPTY:
@@ -425,6 +453,10 @@ def _mask_vec(node, f):
         if node.vec is not None:
             if len(node.vec) != n:
                 return Unspec("vector-flag-vs-leaf-shape")
+            if any(isinstance(l, Leaf) and not l.bare for _p, l, _s in leaves(node)):
+                # the flag meets the stored (un-sliced) leaves; whether their own flag was scalar
+                # (refused) or vectorised (fine) is not recorded in the sliced normal form
+                return Unspec("vector-flag-vs-scalar-flag")
             kids = {}
             seen = set()
             for j, k in enumerate(node.vec):
